@@ -150,9 +150,10 @@ def run(tier: str) -> int:
         fams = [
             {"Family": "core2", "MaxLen": 3, "Starts": "all", "Sample": 120, "workers": 2},
             {"Family": "trivia3", "MaxLen": 3, "Starts": "all", "Sample": 120, "workers": 3},
-            {"Family": "mods", "MaxLen": 3, "Starts": "all", "Sample": 150, "workers": 3},
+            {"Family": "mods", "MaxLen": 4, "Starts": "zero", "Sample": 500, "workers": 3},
             {"Family": "tags", "MaxLen": 3, "Starts": "all", "Sample": 120, "workers": 2},
             {"Family": "stack", "MaxLen": 3, "Starts": "all", "Sample": 250, "workers": 3},
+            {"Family": "optsk", "MaxLen": 3, "Starts": "all", "Sample": 120, "workers": 3, "style": "min"},
         ]
     else:
         fams = [
